@@ -197,9 +197,11 @@ def parse_rvalue(s):
             except ParseError:
                 pass
         return Rvalue('use', (parse_operand(s),))
-    m = re.match(r'^(.*) as (.*) \((PointerCoercion\(.*\))\)$', s)
+    m = re.match(r'^(.*) \((PointerCoercion\(.*\))\)$', s)
     if m and re.match(r'^[A-Za-z_<]', s):
-        return Rvalue('cast', (Operand('fnitem', m.group(1)), m.group(2), m.group(3)))
+        k = top_level_as(m.group(1))
+        if k is not None:
+            return Rvalue('cast', (Operand('fnitem', m.group(1)[:k]), m.group(1)[k + 4:], m.group(2)))
     m = re.match(r'^discriminant\((.*)\)$', s)
     if m:
         return Rvalue('discriminant', (parse_place(m.group(1)),))
@@ -256,6 +258,25 @@ def parse_rvalue(s):
     if re.match(r'^[A-Za-z_<]', s):
         return Rvalue('adt_unit', (s,))
     raise ParseError('rvalue %r' % s)
+
+def top_level_as(s):
+    """index of the first ' as ' outside any <>, (), [] nesting"""
+    depth = 0
+    i = 0
+    n = len(s)
+    while i < n:
+        c = s[i]
+        if c == '-' and i + 1 < n and s[i + 1] == '>':
+            i += 2; continue
+        if c in '<([':
+            depth += 1
+        elif c in '>)]':
+            depth -= 1
+        elif depth == 0 and s.startswith(' as ', i):
+            return i
+        i += 1
+    return None
+
 
 CASTKINDS = {'IntToInt', 'FloatToInt', 'IntToFloat', 'FloatToFloat', 'PtrToPtr', 'FnPtrToPtr', 'Transmute',
              'PointerCoercion', 'PointerExposeProvenance', 'PointerWithExposedProvenance', 'Subtype'}
